@@ -121,6 +121,10 @@ func (c *PackCase) candidates() []string {
 			add(strings.Join(parts[:i], "/"))
 		}
 	}
+	// whatever an independent walk of the case hands to the matcher (names that pass through ".." or links)
+	for _, s := range pkWalkStrings(c) {
+		add(s)
+	}
 	var out []string
 	for k := range set {
 		out = append(out, k)
@@ -260,6 +264,22 @@ func parseTarStream(b []byte) ([]Ent, []*tar.Header, error) {
 	}
 }
 
+func runPackOnce(c *PackCase) ([]byte, error) {
+	var rc io.ReadCloser
+	var err error
+	if c.Op == "tar-chroot" {
+		rc, err = chrootarchive.Tar(c.Src, c.tarOptions(), c.Root)
+	} else {
+		rc, err = archive.TarWithOptions(c.Src, c.tarOptions())
+	}
+	if err != nil {
+		return nil, err
+	}
+	b, rerr := io.ReadAll(rc)
+	rc.Close()
+	return b, rerr
+}
+
 func runPackJob(j *Job, res *JobResult) {
 	var c PackCase
 	if err := json.Unmarshal([]byte(j.Args[0]), &c); err != nil {
@@ -274,22 +294,26 @@ func runPackJob(j *Job, res *JobResult) {
 		res.Out, res.Err = "setup", err.Error()
 		return
 	}
-	var rc io.ReadCloser
-	var err error
-	if c.Op == "tar-chroot" {
-		rc, err = chrootarchive.Tar(c.Src, c.tarOptions(), c.Root)
-	} else {
-		rc, err = archive.TarWithOptions(c.Src, c.tarOptions())
+	// sub-second file times (seconds as in the case): makes the whole-second clause of C09 observable
+	if err := pkSubSecond(c.Nodes); err != nil {
+		res.Out, res.Err = "setup", err.Error()
+		return
+	}
+	b, err := runPackOnce(&c)
+	// C09 reproducibility: the same call once more on the unchanged tree
+	b2, err2 := runPackOnce(&c)
+	res.Before, res.After = "err", "err"
+	if err == nil {
+		res.Before = pkSha(b)
+	}
+	if err2 == nil {
+		res.After = pkSha(b2)
+		if err == nil && !bytes.Equal(b, b2) {
+			res.After = pkDescribeDiff(b, b2)
+		}
 	}
 	if err != nil {
 		res.Out, res.Err = "err", err.Error()
-		res.Extra = "E 0"
-		return
-	}
-	b, rerr := io.ReadAll(rc)
-	rc.Close()
-	if rerr != nil {
-		res.Out, res.Err = "err", rerr.Error()
 		res.Extra = "E 0"
 		return
 	}
@@ -303,7 +327,128 @@ func runPackJob(j *Job, res *JobResult) {
 	res.Archive64 = b
 }
 
-var patPool = []string{"a", "a/b", "!a/b", "*", "!*/c", "**/d", "a*", "b/", "?", "[ab]", "!a", "d/**", "a/*/c", "!a/b/c", "**", "!**/e", "c/d", "!c", "*l", "!b/*l", "e/*", "a/b/*", "!a/b/d", ".*", "!.cfg/a", "!.cfg/b", ".cfg", "!.x", "**/.wh.*", "a.b"}
+var patPool = []string{"a", "a/b", "!a/b", "*", "!*/c", "**/d", "a*", "b/", "?", "[ab]", "!a", "d/**", "a/*/c", "!a/b/c", "**", "!**/e", "c/d", "!c", "*l", "!b/*l", "e/*", "a/b/*", "!a/b/d", ".*", "!.cfg/a", "!.cfg/b", ".cfg", "!.x", "**/.wh.*", "a.b",
+	"d", "!d2", "d*", "!d.x", "!d/x", "d2", "d.x", "a/b/c", "!a/b/c/keep", "a/d", "!top", "**/x", "!**/keep", "*/*", "!*/*/c", "d?", "a/b/c/f", " a ", "./a", "a/", "a/../d"}
+
+// patCombos: pattern lists whose ORDER and interplay matter (exclusion + '!' re-inclusion below it, prefix-related
+// sibling names, dot-directories, deep climbs, the same pattern before and after a '!').
+var patCombos = [][]string{
+	{".*", "!.cfg/a"}, {"a", "!a/b"}, {"a/b", "!a/b/c/keep"}, {"*", "!*/c"}, {"a", "!a/b/c/keep"},
+	{"d", "!d2"}, {"d*", "!d.x"}, {"d", "!d/x"}, {"d2"}, {"d.x", "!d"}, {"d"}, {"**/c", "!a/b/c"},
+	{"*", "!a", "!a/b"}, {"a/b", "!a/b/c", "a/b/c/f"}, {"a/*", "!a/b", "a/b/c"}, {"!a/b/c/keep", "a/b"},
+	{".cfg", "!.cfg"}, {"*/b", "!a/b/d"}, {"a/b/**", "!a/b/c/**"}, {"**", "!a/**"}, {"*", "!d2/x"},
+	{".*", "!.cfg/a", ".cfg/a"}, {"a", "!a/b", "a/b/c"}, {"a/b/c", "!a/b/c/keep", "!a/d"}, {"?", "!?/b"},
+	{"a", "!a/b/c/keep", "!a/d"}, {"d", "d2", "!d.x"}, {"**/keep", "!a/b/c/keep"}, {"a/b/c/f", "a/d"},
+	{"*", "!.cfg", "!.cfg/a"}, {"a/b", "!a/b/c/keep", "top"}, {"a/b/c/**", "!a/b/c/keep"},
+	{".*", "!.cfg/a"}, {".*", "!.cfg/b"}, {".cfg", "!.cfg/a"}, {".*", "!.cfg/a"}, {"d", "!d2"}, {"d", "!d/x"}, {"d*", "!d.x/x"}, {"d", "!d2/x"}, {"d.x", "!d.x/x"},
+	{"a/b", "!a/b/c/keep"}, {"a", "!a/b"}, {"a", "!a/b/c/keep"}, {"a/b/c", "!a/b/c/keep"},
+	// the same pattern before and after a re-inclusion; a re-inclusion of a directory reached only through its parent
+	{"a", "!a/b", "a"}, {"e/*", "!**/e"}, {"a/*", "!**/a"},
+}
+
+// packSkeleton: fixed shapes the selection logic is sensitive to.
+func packSkeleton(r *Rng, base string, mt *int64) []Node {
+	var out []Node
+	add := func(rel string, kind byte, data string) {
+		*mt++
+		n := Node{Path: base + "/" + rel, Kind: kind, Perm: 0o644, Mtime: *mt, Data: data, Uid: r.pick2(0, 0, 1000), Gid: r.pick2(0, 0, 7)}
+		if kind == 'd' {
+			n.Perm = 0o755
+		}
+		out = append(out, n)
+	}
+	if r.chance(2, 3) { // deep climb: a/b/c/... followed by a/d, then top-level entries
+		add("a", 'd', "")
+		add("a/b", 'd', "")
+		add("a/b/c", 'd', "")
+		add("a/b/c/f", 'r', "f")
+		add("a/b/c/keep", 'r', "keep")
+		if r.chance(1, 2) {
+			add("a/b/d", 'r', "abd")
+		}
+		if r.chance(1, 2) {
+			add("a/d", 'r', "ad")
+		} else {
+			add("a/d", 'd', "")
+			add("a/d/x", 'r', "adx")
+		}
+		add("top", 'r', "top")
+	}
+	if r.chance(1, 2) { // sibling names that are string prefixes of each other
+		add("d", 'd', "")
+		add("d/x", 'r', "dx")
+		add("d2", 'd', "")
+		add("d2/x", 'r', "d2x")
+		add("d.x", 'd', "")
+		add("d.x/x", 'r', "d.xx")
+		if r.chance(1, 2) {
+			add("d/c", 'd', "")
+			add("d/c/keep", 'r', "k")
+		}
+	}
+	if r.chance(1, 2) { // dot-directory
+		add(".cfg", 'd', "")
+		add(".cfg/a", 'r', "cfga")
+		add(".cfg/b", 'r', "cfgb")
+		if r.chance(1, 2) {
+			add(".x", 'r', "dotx")
+		}
+	}
+	if r.chance(1, 12) { // a whiteout-named link of a file whose owner an ID map does not cover, met after the plain name
+		*mt++
+		add("b", 'd', "")
+		add("zd", 'd', "")
+		n := Node{Kind: 'r', Perm: 0o644, Uid: 7, Gid: 7, Mtime: *mt, Data: "wl", Group: 90}
+		for _, nm := range []string{"b/keepl", "zd/.wh.keepl"} {
+			n.Path = base + "/" + nm
+			out = append(out, n)
+		}
+	}
+	if r.chance(1, 3) { // hard-link group of three whose first name sorts first and can be excluded on its own
+		g := 100 + r.intn(50)
+		*mt++
+		n := Node{Kind: 'r', Perm: uint32(r.pick2(0o644, 0o4755, 0o600)), Mtime: *mt, Data: "linked-content", Group: g}
+		names := [][]string{{"a/b/c/f", "a/d", "zl"}, {"a", "d2x", "zz"}, {"d/x", "d2/x", "e"}, {"a/b/c/keep", "a/b/d", "top"}}[r.intn(4)]
+		for _, nm := range names {
+			n.Path = base + "/" + nm
+			out = append(out, n)
+		}
+	}
+	return out
+}
+
+// packSanitize: first description of a path wins; a node stays only if its parent chain consists of directories.
+func packSanitize(world []Node) []Node {
+	seen := map[string]bool{}
+	var ns []Node
+	for _, n := range world {
+		if !seen[n.Path] {
+			seen[n.Path] = true
+			ns = append(ns, n)
+		}
+	}
+	sort.SliceStable(ns, func(i, j int) bool { return ns[i].Path < ns[j].Path })
+	kind := map[string]byte{"/w": 'd'}
+	var out []Node
+	for _, n := range ns {
+		if k, ok := kind[filepath.Dir(n.Path)]; !ok || k != 'd' {
+			continue
+		}
+		kind[n.Path] = n.Kind
+		out = append(out, n)
+	}
+	// a hard-link group must keep one attribute set (the generator copies the node) and at least two names
+	cnt := map[int]int{}
+	for _, n := range out {
+		cnt[n.Group]++
+	}
+	for i := range out {
+		if out[i].Group != 0 && cnt[out[i].Group] < 2 {
+			out[i].Group = 0
+		}
+	}
+	return out
+}
 
 func genPackCase(r *Rng, family string) *PackCase {
 	g := &genCtx{r: r}
@@ -321,65 +466,187 @@ func genPackCase(r *Rng, family string) *PackCase {
 		{Path: "/w/dest2", Kind: 'd', Perm: 0o755, Mtime: 1505},
 		{Path: "/w/dest2/f", Kind: 'r', Perm: 0o644, Data: "CANARY-sib", Mtime: 1506},
 	}
+	srcBase := "/w/src"
+	var linkIncludes []string
 	if c.Op == "tar-chroot" {
 		c.Root = "/w/root"
+		srcBase = "/w/root/src"
 		world = append(world, Node{Path: "/w/root", Kind: 'd', Perm: 0o755, Mtime: 1600})
 		world = append(world, Node{Path: "/w/root/src", Kind: 'd', Perm: 0o755, Mtime: 1601})
+		if r.chance(3, 4) {
+			world = append(world, packSkeleton(r, srcBase, &mt)...)
+		}
 		world = append(world, g.genTree("/w/root/src", 2+r.intn(9), &mt)...)
-		if r.chance(1, 2) {
+		// look-alikes inside the root, at the places where an outward link lands once the root is "/"
+		if r.chance(2, 3) {
 			world = append(world, Node{Path: "/w/root/w", Kind: 'd', Perm: 0o755, Mtime: 1610},
 				Node{Path: "/w/root/w/secret", Kind: 'r', Perm: 0o644, Data: "inside-lookalike", Mtime: 1611},
 				Node{Path: "/w/root/outdir", Kind: 'd', Perm: 0o700, Mtime: 1612},
 				Node{Path: "/w/root/outdir/of", Kind: 'r', Perm: 0o644, Data: "inside-of", Mtime: 1613})
+			if r.chance(2, 3) {
+				world = append(world, Node{Path: "/w/root/w/outdir", Kind: 'd', Perm: 0o750, Uid: 7, Mtime: 1614},
+					Node{Path: "/w/root/w/outdir/of", Kind: 'r', Perm: 0o640, Uid: 7, Data: "inside-w-of", Mtime: 1615},
+					Node{Path: "/w/root/secret", Kind: 'r', Perm: 0o640, Data: "inside-secret", Mtime: 1616})
+			}
 		}
-		c.Src = r.pick([]string{"/w/root/src", "/w/root/src/", "/w/root", "/w/root/src/a", "/w/root/src/a/", "/w/root/lnk", "/w/root/lnk/", "/w/root/../outdir", "/w/outdir"})
+		outward := []string{"/w/outdir", "../outdir", "../../outdir", "/outdir", "/w/secret", "../../w/outdir", "/w", "..", "/", "../../../w/outdir", "/w/outdir/", "/w/dest2"}
+		// outward links at fixed names: directly under the root (chained), and inside the source tree at depth
+		if r.chance(2, 3) {
+			world = append(world,
+				Node{Path: "/w/root/l1", Kind: 's', Perm: 0o777, Target: r.pick([]string{"l2", "/l2", "./l2", "src/../l2"}), Mtime: 1621},
+				Node{Path: "/w/root/l2", Kind: 's', Perm: 0o777, Target: r.pick(outward), Mtime: 1622},
+				Node{Path: "/w/root/src/out", Kind: 's', Perm: 0o777, Target: r.pick(outward), Mtime: 1623},
+				Node{Path: "/w/root/src/up", Kind: 's', Perm: 0o777, Target: r.pick([]string{"../../outdir", "../../../../w/outdir", "../outdir", "../../secret"}), Mtime: 1624},
+				Node{Path: "/w/root/src/chain", Kind: 's', Perm: 0o777, Target: r.pick([]string{"../l1", "/l1", "out", "up"}), Mtime: 1625})
+			if r.chance(1, 2) {
+				world = append(world, Node{Path: "/w/root/src/a", Kind: 'd', Perm: 0o755, Mtime: 1626},
+					Node{Path: "/w/root/src/a/deep", Kind: 's', Perm: 0o777, Target: r.pick([]string{"../../../outdir", "/w/outdir", "../chain", "../../l1"}), Mtime: 1627})
+			}
+			linkIncludes = []string{"out", "out/of", "out/", "out/.", "up", "up/of", "chain", "chain/of", "../l1", "../l1/of", "../l1/", "a/deep/of", "a/deep", "../../outdir", "../../outdir/of", "/w/outdir", "/w/outdir/of", "a/../../outdir", "../outdir/of", "../w/secret", "../../w/secret"}
+		}
+		if r.chance(2, 3) {
+			c.Src = r.pick([]string{"/w/root/src", "/w/root/src", "/w/root/src/", "/w/root", "/w/root/", "/w/root/./src/."})
+		} else {
+			c.Src = r.pick([]string{"/w/root/src/a", "/w/root/src/a/", "/w/root/lnk", "/w/root/lnk/", "/w/root/lnk/of", "/w/root/../outdir", "/w/outdir", "/w/outdir/of", "/w/secret",
+				"/w/root/l1", "/w/root/l1/", "/w/root/l1/of", "/w/root/src/out", "/w/root/src/out/", "/w/root/src/out/of", "/w/root/src/up/of", "/w/root/src/chain/", "/w/root/src/chain/of", "/w/root/src/a/deep/", "/w/root/src/../../outdir", "/w/root/src/../../outdir/", "/w/root/w/../../outdir/of"})
+		}
 		if r.chance(1, 10) {
 			// the root cannot be turned into a jail: nothing may be archived at all
-			c.Root = r.pick([]string{"/w/secret", "/w/missing"})
-			c.Src = c.Root + r.pick([]string{"", "/x", "/../outdir"})
+			c.Root = r.pick([]string{"/w/secret", "/w/missing", "/w/outdir/of"})
+			c.Src = c.Root + r.pick([]string{"", "/x", "/../outdir", "/."})
 		}
 		if strings.Contains(c.Src, "lnk") {
-			world = append(world, Node{Path: "/w/root/lnk", Kind: 's', Perm: 0o777, Target: r.pick([]string{"/w/outdir", "../outdir", "src", "/src", "../../w/outdir", "/w/secret"}), Mtime: 1620})
+			world = append(world, Node{Path: "/w/root/lnk", Kind: 's', Perm: 0o777, Target: r.pick([]string{"/w/outdir", "../outdir", "src", "/src", "../../w/outdir", "/w/secret", "/outdir", "l1", "/w/root/src", "src/out"}), Mtime: 1620})
 		}
 	} else {
 		world = append(world, Node{Path: "/w/src", Kind: 'd', Perm: uint32(r.pick2(0o755, 0o2775, 0o700)), Uid: r.pick2(0, 0, 1000), Mtime: 1601})
+		if family == "select" || r.chance(3, 4) {
+			world = append(world, packSkeleton(r, srcBase, &mt)...)
+		}
 		world = append(world, g.genTree("/w/src", 1+r.intn(12), &mt)...)
-		c.Src = r.pick([]string{"/w/src", "/w/src", "/w/src/", "/w/src/a", "/w/src/."})
+		c.Src = r.pick([]string{"/w/src", "/w/src", "/w/src", "/w/src/", "/w/src/", "/w/src/a", "/w/src/.", "/w/src/top"})
 	}
-	seen := map[string]bool{}
-	for _, n := range world {
-		if !seen[n.Path] {
-			seen[n.Path] = true
-			c.Nodes = append(c.Nodes, n)
+	c.Nodes = packSanitize(world)
+	// names that exist under the source directory (includes mostly name something real)
+	var existing []string
+	exists := map[string]bool{}
+	if sd := strings.TrimSuffix(strings.TrimSuffix(c.Src, "/."), "/"); strings.HasPrefix(sd, srcBase+"/") {
+		for _, n := range c.Nodes {
+			if n.Path == sd && n.Kind == 'd' {
+				srcBase = sd
+			}
 		}
 	}
-	sort.SliceStable(c.Nodes, func(i, j int) bool { return c.Nodes[i].Path < c.Nodes[j].Path })
-	switch r.intn(10) {
+	for _, n := range c.Nodes {
+		if strings.HasPrefix(n.Path, srcBase+"/") {
+			exists[n.Path[len(srcBase)+1:]] = true
+			if strings.Count(n.Path[len(srcBase)+1:], "/") <= 2 {
+				existing = append(existing, n.Path[len(srcBase)+1:])
+			}
+		}
+	}
+	pickName := func() string {
+		if len(existing) > 0 && r.chance(3, 4) {
+			return existing[r.intn(len(existing))]
+		}
+		return r.pick(comps)
+	}
+	if c.Op == "tar" && strings.HasPrefix(c.Src, "/w/src/") && len(c.Src) > len("/w/src/.") {
+		found := false
+		for _, n := range c.Nodes {
+			if n.Path == c.Src {
+				found = true
+			}
+		}
+		if !found && r.chance(3, 4) {
+			c.Src = "/w/src"
+		}
+	}
+	pairs := [][]string{{"a/b", "a"}, {"a", "a/b"}, {"a/b/c", "a"}, {"a/b/c/keep", "a"}, {"d", "d2"}, {"d2", "d"}, {"d.x", "d"}, {".cfg/a", ".cfg"}, {".cfg"}, {"a/b/c/keep"}, {"a/d", "a/b"}, {"a/b", "a/d", "a"}, {"top", "a"}, {"a/b/c"}, {"d/x", "d2/x", "d"}, {".", "a"}, {"a", "."}}
+	switch r.intn(12) {
 	case 0, 1, 2:
 	case 3:
 		c.Includes = []string{"."}
 	case 4:
-		c.Includes = []string{r.pick(comps)}
+		c.Includes = []string{pickName()}
 	case 5:
-		c.Includes = []string{r.pick(comps), r.pick(comps)}
+		c.Includes = []string{pickName(), pickName()}
 	case 6:
 		c.Includes = []string{"a/b", "a"}
 	case 7:
 		c.Includes = []string{r.pick(comps) + "/" + r.pick(comps), r.pick(comps)}
+		if r.chance(1, 2) {
+			c.Includes = []string{pickName(), pickName(), pickName()}
+		}
 	case 8:
 		c.Includes = []string{r.pick([]string{"../outdir", "..", "/w/secret", "a/../..", "lnk"}), "a"}
+	case 9, 10:
+		c.Includes = append([]string(nil), pairs[r.intn(len(pairs))]...)
 	default:
 		c.Includes = []string{"a", "a"}
 	}
+	if len(c.Includes) > 0 {
+		any := false
+		for _, inc := range c.Includes {
+			if ic := filepath.Clean(inc); exists[ic] || ic == "." || strings.HasPrefix(ic, "..") {
+				any = true
+			}
+		}
+		if !any && r.chance(4, 5) {
+			c.Includes = []string{pickName()}
+			if r.chance(1, 2) {
+				c.Includes = append(c.Includes, pickName())
+			}
+		}
+	}
+	if len(linkIncludes) > 0 && r.chance(1, 3) {
+		c.Includes = []string{r.pick(linkIncludes)}
+		if r.chance(1, 3) {
+			c.Includes = append(c.Includes, r.pick(linkIncludes))
+		}
+		if r.chance(2, 3) {
+			c.Includes = append(c.Includes, r.pick([]string{"a", ".", "d", "a/b"}))
+		}
+	}
 	c.ISD = r.chance(1, 4)
 	if len(c.Includes) > 0 && r.chance(1, 3) {
-		c.Rebase = map[string]string{c.Includes[0]: r.pick([]string{"new", "x/y", "/", "a"})}
+		key := c.Includes[r.intn(len(c.Includes))]
+		c.Rebase = map[string]string{key: r.pick([]string{"new", "x/y", "/", "a", "d", "b/c"})}
+	} else if len(c.Includes) == 0 && r.chance(1, 8) {
+		// rebasing "." must leave every name alone unless IncludeSourceDir spells them "./..."
+		c.Rebase = map[string]string{".": r.pick([]string{"r", "new", "a"})}
 	}
 	if family == "select" || r.chance(1, 2) {
-		n := 1 + r.intn(4)
-		for i := 0; i < n; i++ {
-			c.Patterns = append(c.Patterns, patPool[r.intn(len(patPool))])
+		if r.chance(1, 2) {
+			c.Patterns = append(c.Patterns, patCombos[r.intn(len(patCombos))]...)
+			for k := r.intn(3); k > 0; k-- {
+				p := patPool[r.intn(len(patPool))]
+				if r.chance(1, 2) {
+					c.Patterns = append(c.Patterns, p)
+				} else {
+					c.Patterns = append([]string{p}, c.Patterns...)
+				}
+			}
+		} else {
+			n := 1 + r.intn(4)
+			for i := 0; i < n; i++ {
+				c.Patterns = append(c.Patterns, patPool[r.intn(len(patPool))])
+			}
 		}
+	}
+	// two arrangements behind known findings, reached on purpose so that they are reported every run, not by luck
+	switch r.intn(50) {
+	case 0: // D20: an excluded directory with re-included content, listed verbatim after an include above it
+		c.Includes = []string{r.pick([]string{"a", "."}), "a/b"}
+		c.Patterns = append([]string{"a/b", "!a/b/c/keep"}, c.Patterns...)
+		c.Rebase = nil
+	case 1: // D21: IncludeSourceDir + "." + a second include
+		c.ISD = true
+		c.Includes = []string{".", pickName()}
+		if r.chance(1, 2) {
+			c.Includes[0], c.Includes[1] = c.Includes[1], c.Includes[0]
+		}
+		c.Rebase = nil
 	}
 	if r.chance(1, 5) {
 		c.UidMap = []IDRange{{0, 100000, 65536}}
@@ -391,13 +658,15 @@ func genPackCase(r *Rng, family string) *PackCase {
 	if r.chance(1, 8) {
 		c.Chown = &[2]int{r.pickID(), r.pickID()}
 	}
+	c.Overlay = r.chance(1, 5)
 	return c
 }
 
 func runPack(cfg *Config, family string) *Result {
 	res := newResult("random (tree with hard links, symlinks in and out, devices, fifos, set-id bits, capabilities; include list; IncludeSourceDir; rebase map; exclude patterns incl. '!' forms; ID map; ChownOpts) cases through TarWithOptions and chrootarchive.Tar, family=" + family +
 		"; entries compared with the model in order; non-trivial = ≥2 entries produced; distinct by case line")
-	rng := newRng(cfg.Seed ^ 0x7061636b)
+	// fork once: consecutive seeds of newRng are the same sequence shifted by one step
+	rng := newRng(cfg.Seed ^ 0x7061636b).fork()
 	n := cfg.count(1500, 20000)
 	var cases []*PackCase
 	var lines []string
@@ -439,6 +708,7 @@ func runPack(cfg *Config, family string) *Result {
 		return res
 	}
 	results := runArena(cfg, jobs, 20*time.Second)
+	sigShown := map[string]int{}
 	for i, c := range cases {
 		jr := results[i]
 		cb, _ := json.Marshal(c)
@@ -463,12 +733,26 @@ func runPack(cfg *Config, family string) *Result {
 			res.nontrivial(lines[i])
 		}
 		for _, p := range oraclePack(c, &jr) {
+			if p.Sig != "" && !pkSigReportable(family, p.Sig) {
+				res.count("known-finding-of-another-property:" + p.Sig)
+				continue
+			}
+			if p.Sig != "" {
+				// a few examples per known finding; the rest must not crowd real problems out of the capped list
+				sigShown[p.Sig]++
+				if sigShown[p.Sig] > 2 {
+					continue
+				}
+			}
 			p.Case = caseText
 			res.problem(p)
 		}
 		if i < 3 {
 			res.sample(truncate(lines[i], 300) + " => " + truncate(implLine, 300))
 		}
+	}
+	for k, v := range packOracleStats {
+		res.Distribution[k] += v
 	}
 	return res
 }
